@@ -269,6 +269,12 @@ func runC11(c *Ctx) {
 		c.R.Probe("sampler built by the deprecated NewSampler")
 	}
 	child := sampler.With([]zapcore.Field{{Key: "k", Type: zapcore.Int64Type, Integer: 1}})
+	if g.Chance(3) {
+		// the derived core is a lazy one (Logger.WithLazy over a sampled logger):
+		// it shares the budget like any other, one decision per entry
+		child = zapcore.NewLazyWith(sampler, []zapcore.Field{{Key: "k", Type: zapcore.Int64Type, Integer: 1}})
+		c.R.Probe("child derived with NewLazyWith")
+	}
 	dark = false
 	epoch := drawEpoch(g)
 	if epoch.Unix() < 1 {
